@@ -23,10 +23,10 @@ import (
 // Function literals assigned to a variable (`mkdirRoot := func() …`) are emitted as their own
 // skeleton `<Func>$<var>`, and calls to them as `callLocal`.
 type lev struct {
-	kind   string
-	name   string // lock name or callee
-	ord    int
-	line   int
+	kind string
+	name string // lock name or callee
+	ord  int
+	line int
 }
 
 func genLocks(repo string) string {
